@@ -206,10 +206,12 @@ class Site:
         self.decl_index = None   # index of the enclosing declaration in its module
         self.own = False         # inside nt's own methods
         self.ctx = None
+        self.mult = 1            # how many times the lowering visits the site (inherited / trait-default methods; 0 = dropped)
 
     def src(self):
         T, l = self.nt.name, lit_src(self.nt.under, self.marker)
         return {"direct": "%s(%s)" % (T, l), "paren": "(%s)(%s)" % (T, l), "twoargs": "%s(%s, 2)" % (T, l),
+                "threeargs": "%s(%s, 2, 3)" % (T, l), "qualified": "%s.%s(%s)" % (self.qual, T, l) if self.form == "qualified" else "",
                 "alias": "mk%d(%s)" % (self.marker, l)}[self.form]
 
     def coq(self):
@@ -217,6 +219,8 @@ class Site:
         return {"direct": "(ECall (EIdent %s) [None] [%s])" % (T, l),
                 "paren": "(ECall (EParen (EIdent %s)) [None] [%s])" % (T, l),
                 "twoargs": "(ECall (EIdent %s) [None; None] [%s; ELit 2])" % (T, l),
+                "threeargs": "(ECall (EIdent %s) [None; None; None] [%s; ELit 2; ELit 3])" % (T, l),
+                "qualified": "(ENode KMethodCall [EIdent \"qualifier\"; %s])" % l,
                 "alias": "(ECall (EIdent %s) [None] [%s])" % (cq("mk%d" % self.marker), l)}[self.form]
 
 
@@ -469,6 +473,14 @@ class Gen:
             proj.sites.append(s)
             mod.sites.append(s)
             s.module = proj.modules.index(mod)
+            # ... and one nested inside a collection inside the own method (still exempt)
+            s2 = Site(self.mark(), nt)
+            s2.own = True
+            s2.ctx = "own-method-nested"
+            ms.append(Method("both", False, [], Ty("List", [Ty(T)]), ["return [%s]" % s2.src()], "[%s]" % S("SKReturn", E("KList", s2.coq()))))
+            proj.sites.append(s2)
+            mod.sites.append(s2)
+            s2.module = proj.modules.index(mod)
         nt.module = proj.modules.index(mod)
         nt.index = mod.add(nt.src(), "PENDING")
         for s in mod.sites:
@@ -490,6 +502,7 @@ class Gen:
         name, fn, _ = ctx or self.rng.choice(cands)
         m = self.mark()
         s = Site(m, nt, form)
+        s.qual = proj.modules[nt.module].name
         s.ctx = name
         fname = self.fresh("ctx_")
         u = "use_" + nt.name
@@ -514,6 +527,17 @@ class Gen:
         fname = self.fresh("ret_")
         idx = mod.add(["def %s() -> %s:" % (fname, nt.name), "    return %s" % s.src()],
                       "(DFunction %s [%s])" % (cq(fname), S("SKReturn", s.coq())))
+        self._reg(proj, mod, s, idx)
+        return s
+
+    def site_yield(self, proj, mod, nt):
+        """`yield T(m)`: the lowering drops the operand (Expr::Yield => Unit placeholder) — nothing is constructed"""
+        s = Site(self.mark(), nt)
+        s.ctx = "yield-operand"
+        s.mult = 0
+        fname = self.fresh("gen_")
+        idx = mod.add(["def %s() -> %s:" % (fname, nt.name), "    yield %s" % s.src()],
+                      "(DFunction %s [%s])" % (cq(fname), S("SKExpr", "(EYield %s)" % s.coq())))
         self._reg(proj, mod, s, idx)
         return s
 
@@ -557,6 +581,32 @@ class Gen:
             # lower_model_methods lowers `mk` into `impl Impl` AND lower_trait_impl into `impl Maker for Impl`
             idx = mod.add(["class %s with %s:" % (mname, tname), "    n: int", "", "    def mk(self) -> %s:" % T, "        return %s" % s.src()],
                           "(DModel %s [] [%s] [%s])" % (cq(mname), meth, meth))
+            s.mult = 2
+        elif kind == "hooked-newtype-method":
+            # a newtype that has its own hook constructs T in one of its methods (current_impl_type = the other one)
+            oname = self.fresh("Hooked")
+            meth = "{| m_name := \"mk\"; m_recv := true; m_params := []; m_ret := TSimple %s; m_body := [%s] |}" % (cq(T), S("SKReturn", s.coq()))
+            hk = hook_method(oname, "int", "from_underlying")
+            idx = mod.add(["type %s = newtype int:" % oname] + hk.src() + ["", "    def mk(self) -> %s:" % T, "        return %s" % s.src()],
+                          "(DNewtype {| nt_name := %s; nt_under := TSimple \"int\"; nt_methods := [%s; %s] |})" % (cq(oname), hk.coq(proj.spans), meth))
+        elif kind == "inherited-class-method":
+            # collect_inherited_methods: the parent's method is lowered again in the child's impl
+            pname, cname = self.fresh("Parent"), self.fresh("Child")
+            meth = "{| m_name := \"mk\"; m_recv := true; m_params := []; m_ret := TSimple %s; m_body := [%s] |}" % (cq(T), S("SKReturn", s.coq()))
+            idx = mod.add(["class %s:" % pname, "    n: int", "", "    def mk(self) -> %s:" % T, "        return %s" % s.src()],
+                          "(DModel %s [] [%s] [])" % (cq(pname), meth))
+            mod.add(["class %s extends %s:" % (cname, pname), "    m: int"], "(DModel %s [] [%s] [])" % (cq(cname), meth))
+            s.mult = 2
+        elif kind.startswith("trait-default-method:"):
+            # a trait's default method body is expanded into `impl Trait for X` of every adopter (0, 1, 2 adopters)
+            n = int(kind.split(":")[1])
+            tname = self.fresh("Dflt")
+            meth = "{| m_name := \"mk\"; m_recv := true; m_params := []; m_ret := TSimple %s; m_body := [%s] |}" % (cq(T), S("SKReturn", s.coq()))
+            idx = mod.add(["trait %s:" % tname, "    def mk(self) -> %s:" % T, "        return %s" % s.src()], None)
+            for _ in range(n):
+                a = self.fresh("Adopter")
+                mod.add(["class %s with %s:" % (a, tname), "    n: int"], "(DModel %s [] [] [%s])" % (cq(a), meth))
+            s.mult = n
         elif kind == "other-newtype-method":
             oname = self.fresh("Wrap")
             meth = "{| m_name := \"mk\"; m_recv := true; m_params := []; m_ret := TSimple %s; m_body := [%s] |}" % (cq(T), S("SKReturn", s.coq()))
@@ -569,7 +619,9 @@ class Gen:
         return s
 
 
-MODEL_KINDS = ["field-init", "field-default", "model-method", "class-method", "other-newtype-method", "trait-impl-method"]
+MODEL_KINDS = ["field-init", "field-default", "model-method", "class-method", "other-newtype-method", "trait-impl-method",
+               "hooked-newtype-method", "inherited-class-method", "trait-default-method:0", "trait-default-method:1",
+               "trait-default-method:2"]
 VARIANTS2 = ["fu:zero", "fu:three", "fu:onearg", "fu:async", "fu:decorated", "fu:default", "fu:abstract", "fu:retnested",
              "fu:retplain", "fu-first+other", "dup-fu", "name:From_x", "name:xfrom_y", "name:fro_m", "name:from_", "name:from__",
              "name:FROM_X", "many:0", "many:1", "many:2", "many:16", "many:17", "many:64", "many:65", "many+fu:0", "many+fu:1",
@@ -611,9 +663,10 @@ def uses_first(proj, mod, nts):
 def shuffle_decls(g, proj, mod):
     """any order of top-level declarations is the same program for the checker (it has a collect pass)"""
     last = len(mod.decls) - 1
-    body = list(range(last))
+    head = [i for i in range(last) if mod.decls[i][0] and mod.decls[i][0][0].startswith('"""')]
+    body = [i for i in range(last) if i not in head]
     g.rng.shuffle(body)
-    reorder(proj, mod, body + [last])
+    reorder(proj, mod, head + body + [last])
 
 
 def project_all_contexts(g, under, variant="fu", tname="Attempts", order="decl-first"):
@@ -623,12 +676,16 @@ def project_all_contexts(g, under, variant="fu", tname="Attempts", order="decl-f
     p = Project()
     m = Module("main")
     p.modules.append(m)
+    m.add(['"""module docstring (Declaration::Docstring arm of lower_program)"""'], None)
+    m.add(["const LIMIT%d: int = 5" % g.mark()], "(DConst \"LIMIT\" (ELit 5))")
     g.plain_helpers(m, [under])
     nt = g.newtype(p, m, tname, under, variant)
     free = g.newtype(p, m, "Free" + tname, under, "none")
     for c in CTXS:
         g.site_in_function(p, m, nt, ctx=c)
     g.site_return(p, m, nt)
+    g.site_yield(p, m, nt)
+    g.site_in_function(p, m, nt, ctx=CTXS[0], form="threeargs")
     for k in MODEL_KINDS:
         g.site_model(p, m, nt, k)
     g.site_in_function(p, m, free, ctx=CTXS[0])
@@ -664,6 +721,94 @@ def project_variants(g, under, variants, order="decl-first"):
         uses_first(p, m, [nt for nt in p.newtypes])
     elif order == "shuffled":
         shuffle_decls(g, p, m)
+    return p
+
+
+def project_scale(g, depth, width, ntypes):
+    """scale dimensions pushed past plausible bounds: a site under `depth` parentheses / list brackets /
+    nested if blocks, `width` sites in one list literal, `ntypes` hooked newtypes in one module"""
+    p = Project()
+    m = Module("main")
+    p.modules.append(m)
+    nt = g.newtype(p, m, "Deep", "int", "fu")
+    # parentheses
+    s1 = Site(g.mark(), nt); s1.ctx = "paren-depth-%d" % depth
+    co = s1.coq()
+    for _ in range(depth):
+        co = "(EParen %s)" % co
+    i1 = m.add(["def deep_paren() -> None:", "    a = %s%s%s" % ("(" * depth, s1.src(), ")" * depth)], "(DFunction \"deep_paren\" [%s])" % S("SKAssign", co))
+    g._reg(p, m, s1, i1)
+    # list brackets
+    s2 = Site(g.mark(), nt); s2.ctx = "list-depth-%d" % depth
+    co = s2.coq()
+    for _ in range(depth):
+        co = E("KList", co)
+    i2 = m.add(["def deep_list() -> None:", "    a = %s%s%s" % ("[" * depth, s2.src(), "]" * depth)], "(DFunction \"deep_list\" [%s])" % S("SKAssign", co))
+    g._reg(p, m, s2, i2)
+    # nested if blocks
+    s3 = Site(g.mark(), nt); s3.ctx = "block-depth-%d" % depth
+    lines, co = [], S("SKAssign", s3.coq())
+    for d in range(depth):
+        lines.append("    " * (d + 1) + "if 1 > 0:")
+        co = S("SKIf", E("KBinary", "ELit 1", "ELit 0"), blk(co))
+    lines.append("    " * (depth + 1) + "a = %s" % s3.src())
+    i3 = m.add(["def deep_block() -> None:"] + lines, "(DFunction \"deep_block\" [%s])" % co)
+    g._reg(p, m, s3, i3)
+    # wide list
+    ws = [Site(g.mark(), nt) for _ in range(width)]
+    for w in ws:
+        w.ctx = "list-width-%d" % width
+    i4 = m.add(["def wide() -> None:", "    xs = [%s]" % ", ".join(w.src() for w in ws)],
+               "(DFunction \"wide\" [%s])" % S("SKAssign", E("KList", *[w.coq() for w in ws])))
+    for w in ws:
+        g._reg(p, m, w, i4)
+    # many hooked newtypes, one site each (last and first get a second site after all declarations)
+    many = [g.newtype(p, m, "Many%d" % i, "int", "fu" if i % 2 == 0 else "single:from_k%d" % i, own_site=False) for i in range(ntypes)]
+    for t in many:
+        g.site_in_function(p, m, t, ctx=CTXS[0])
+    m.add(["def main() -> None:", "    pass"], "(DFunction \"main\" [])")
+    return p
+
+
+def project_duplicates(g):
+    """the same newtype name declared twice (accepted by the checker): newtype_checked_ctor is a HashMap and only
+    `Some` selections are inserted, so a hooked declaration wins in either order. Correspondence only."""
+    p = Project()
+    m = Module("main")
+    p.modules.append(m)
+    a1 = g.newtype(p, m, "Twice", "int", "none", own_site=False)
+    a2 = g.newtype(p, m, "Twice", "int", "fu", own_site=False)
+    b1 = g.newtype(p, m, "Again", "int", "fu", own_site=False)
+    b2 = g.newtype(p, m, "Again", "int", "none", own_site=False)
+    c1 = g.newtype(p, m, "Both", "int", "fu", own_site=False)
+    c2 = g.newtype(p, m, "Both", "int", "single:from_second", own_site=False)
+    for t in (a1, a2, b1, b2, c1, c2):
+        t.duplicate = True
+    for t in (a2, b1, c2):
+        g.site_in_function(p, m, t, ctx=CTXS[0])
+        g.site_in_function(p, m, t, ctx=CTXS[3])
+    m.add(["def main() -> None:", "    pass"], "(DFunction \"main\" [])")
+    return p
+
+
+def project_lowering_error(g):
+    """passes the checker, fails in lowering (re-assignment of an immutable binding inside a block): the model's SFail.
+    Nothing is emitted; the model must answer None."""
+    p = Project()
+    m = Module("main")
+    p.modules.append(m)
+    nt = g.newtype(p, m, "Faulty", "int", "fu")
+    s = Site(g.mark(), nt); s.ctx = "before-lowering-error"; s.mult = 0
+    idx = m.add(["def broken() -> None:", "    x = 1", "    a = %s" % s.src(), "    if 1 > 0:", "        x = 2"],
+                "(DFunction \"broken\" [%s; %s; %s])" % (S("SKAssign", "ELit 1"), S("SKAssign", s.coq()),
+                                                         S("SKIf", E("KBinary", "ELit 1", "ELit 0"), blk("SFail"))))
+    g._reg(p, m, s, idx)
+    # the same failure inside a newtype's own method and inside a model's method (errors after which lowering continues)
+    m.add(["type Bad = newtype int:", "    def from_underlying(v: int) -> Result[Bad, str]:", "        y = 1", "        if v > 0:", "            y = 2", "        return Ok(Bad(v))"],
+          "(DNewtype {| nt_name := \"Bad\"; nt_under := TSimple \"int\"; nt_methods := [{| m_name := \"from_underlying\"; m_recv := false; "
+          "m_params := [TSimple \"int\"]; m_ret := TNode KGeneric \"Result\" [(TSimple \"Bad\", 1); (TSimple \"str\", 2)]; m_body := [SFail] |}] |})")
+    m.add(["def main() -> None:", "    pass"], "(DFunction \"main\" [])")
+    p.expect_lowering_error = True
     return p
 
 
@@ -725,6 +870,8 @@ def project_multi(g, under, shape):
         for c in g.rng.sample(CTXS, 5):
             g.site_in_function(p, main, nt, ctx=c)       # other module: Known_C17_cross_module
         g.site_return(p, main, nt)
+        main.imports.append("import ids")
+        sq = g.site_in_function(p, main, nt, ctx=CTXS[0], form="qualified")   # ids.UserId(m)
         g.site_model(p, main, nt, g.rng.choice(MODEL_KINDS[:4]))
         for c in g.rng.sample(CTXS, 3):
             g.site_in_function(p, main, local, ctx=c)
@@ -789,11 +936,13 @@ def classify_text(text, sites):
                 want = strip_ws('.expect("validated newtype construction failed: %s::%s")' % (T, h))
                 if close >= 0 and t.startswith(want, close + 1):
                     out.append((s.marker, 1, T, h))
+                elif getattr(s, "form", "") == "qualified":
+                    out.append((s.marker, 0, callee, ""))  # module-qualified raw constructor `ids::UserId(..)`
                 else:
                     out.append((s.marker, 2, T, h))       # hook called, result not unwrapped with the message
             else:
                 out.append((s.marker, 0, callee, ""))
-    return sorted(set(out))
+    return sorted(out)          # a multiset: inherited / trait-default methods are lowered more than once
 
 
 def decode(codes):
@@ -801,7 +950,7 @@ def decode(codes):
 
 
 def model_entries(mod_render):
-    return sorted(set((m, chk, decode(c), decode(h)) for (m, chk, c, h) in [flat4(e) for e in mod_render]))
+    return sorted((m, chk, decode(c), decode(h)) for (m, chk, c, h) in [flat4(e) for e in mod_render])
 
 
 def flat4(e):
@@ -823,7 +972,7 @@ def flat4_inner(x):
 def expected_for(site):
     """what the PROPERTY demands at this site: ('checked', T, hook) | ('raw', T) | None (not a site)"""
     nt = site.nt
-    if site.form == "twoargs":
+    if site.form in ("twoargs", "threeargs") or getattr(site.nt, "duplicate", False):
         return None
     h = nt.spec_hook()
     if h is None or site.own:
@@ -837,7 +986,7 @@ def known_class(site):
     cls = []
     if site.module != nt.module:
         cls.append("newtype-cross-module")
-    if site.form in ("paren", "alias"):
+    if site.form in ("paren", "alias", "qualified"):
         cls.append("newtype-indirect-callee")
     if nt.uty().nested():
         cls.append("newtype-generic-underlying")
@@ -876,6 +1025,19 @@ MIX_SITES = {
     "MCallArg": "def main() -> None:\n    println(takes_a(B(1)))\n",
     "MMethodArg": "def main() -> None:\n    h = H(n=1)\n    println(h.takes(B(1)))\n",
 }
+MIX_SITES.update({
+    "MOption": "def main() -> None:\n    x: Option[A] = Some(B(1))\n",
+    "MTuple": "def main() -> None:\n    t: Tuple[A, int] = (B(1), 1)\n",
+    "MDict": "def main() -> None:\n    d: Dict[str, A] = {\"k\": B(1)}\n",
+})
+MIX_LIFTED = {      # model terms for the lifted sites (the rule applied to the lifted types)
+    "MOption": 'compatible (RGeneric "Option" [RNamed "B"]) (RGeneric "Option" [RNamed "A"])',
+    "MTuple": 'compatible (RTuple [RNamed "B"; RInt]) (RGeneric "Tuple" [RNamed "A"; RInt])',
+    "MDict": 'compatible (RGeneric "Dict" [RStr; RNamed "B"]) (RGeneric "Dict" [RStr; RNamed "A"])',
+}
+# a user newtype whose NAME is one of the spellings types_compatible special-cases
+NAME_CASES = [("FrozenStr", "str", "RStr"), ("frozenstr", "str", "RStr"), ("FrozenBytes", "bytes", "RBytes"),
+              ("frozenbytes", "bytes", "RBytes"), ("Frozen", "str", "RStr"), ("Frozenstr", "str", "RStr"), ("Str", "str", "RStr")]
 MIX_UNDER = {"MUnderToNew": "def main() -> None:\n    x: A = %s\n", "MNewToUnder": "def main() -> None:\n    x: %s = A(%s)\n"}
 
 
@@ -1019,6 +1181,14 @@ def run(chk):
     for under in ("int", "str", "float"):
         projects.append(("variants/%s" % under, project_variants(g, under, VARIANTS)))
     projects.append(("variants/int/use-before-decl", project_variants(g, "int", VARIANTS, order="use-first")))
+    projects.append(("variants2/int", project_variants(g, "int", VARIANTS2)))
+    projects.append(("variants2/str/shuffled", project_variants(g, "str", VARIANTS2, order="shuffled")))
+    projects.append(("variants2/float/use-before-decl", project_variants(g, "float", VARIANTS2, order="use-first")))
+    for depth, width, ntypes in ((0, 0, 0), (1, 1, 1), (2, 2, 2), (16, 16, 16), (17, 17, 17), (63, 63, 3), (64, 64, 64), (65, 65, 65)) + \
+            (((255, 255, 5), (256, 256, 256), (1000, 1000, 4)) if thorough else ((120, 256, 5),)):
+        projects.append(("scale/%d-%d-%d" % (depth, width, ntypes), project_scale(g, depth, width, ntypes)))
+    projects.append(("duplicates", project_duplicates(g)))
+    projects.append(("lowering-error", project_lowering_error(g)))
     projects.append(("known-selection", project_known_selection(g)))
     projects.append(("lowercase", project_lowercase(g)))
     for under in ("int", "str", "float"):
@@ -1043,19 +1213,36 @@ def run(chk):
         vlib.log("[c17] Model.vo up to date check %.1fs" % (time.time() - t3))
         model = None
         if model_ok:
-            terms = ["render_project %s" % p.coq() for _, p in projects]
+            terms = ["%s" % p.coq() for _, p in projects]
             t2 = time.time()
-            model = vlib.coq_eval(REQ, "option (list (list entry))", "fun x => x", terms, shard=4, tag="c17")
+            both = vlib.coq_eval(REQ, "list (list decl)", "fun p => (render_project p, arms_project p)", terms, shard=3, tag="c17")
+            model = [b[0] for b in both]
+            arm_hits = {}
+            for b in both:
+                for (a, n) in b[1]:
+                    arm_hits[a] = arm_hits.get(a, 0) + n
             vlib.log("[c17] model evaluation in Coq %.1fs" % (time.time() - t2))
         else:
             res["tie_ok"] = False
             res["broken"].append({"what": "model", "message": "C17/Model.v no longer builds"})
 
         fails, corr_bad = [], []
+        scale_skipped = {}
         dist = {}
         known_seen = {}
         n_sites = 0
         for k, ((label, p), r) in enumerate(zip(projects, impl)):
+            if getattr(p, "expect_lowering_error", False):
+                mv = model[k] if model_ok else None
+                if r["stage"] != "codegen" or (model_ok and mv is not None):
+                    corr_bad.append({"project": label, "impl_stage": r["stage"], "impl_errors": r["errors"][:2],
+                                     "model": "lowers" if mv is not None else "lowering error", "files": p.files()})
+                chk.count_case((label, "lowering-error"), nontrivial=False)
+                continue
+            if label.startswith("scale/") and r["stage"] in ("collect", "panic"):
+                # a nesting limit of the parser (C10/C11 territory) — nothing reaches the lowering; recorded, not judged here
+                scale_skipped[label] = "%s: %s" % (r["stage"], r["errors"][0][:160] if r["errors"] else "")
+                continue
             if r["stage"] != "ok":
                 raise vlib.Infra("generated project %s does not pass the front end / codegen (%s): %s\n%s"
                                  % (label, r["stage"], r["errors"][:3], json.dumps(p.files())[:1500]))
@@ -1069,12 +1256,14 @@ def run(chk):
                     corr_bad.append({"project": label, "model": "lowering error", "impl": "ok"})
                 else:
                     for i, m in enumerate(p.modules):
-                        markers = {s.marker for s in p.sites}
+                        markers = {s.marker for s in p.sites if s.form != "qualified"}
+                        impl_entries_i = [e for e in impl_entries[i] if e[0] in markers]
                         me = [e for e in model_entries(mv[i]) if e[0] in markers]   # other calls with a literal first argument are not sites
-                        if me != impl_entries[i]:
+                        if me != impl_entries_i:
                             corr_bad.append({"project": label, "module": m.name,
-                                             "only_model": [e for e in me if e not in impl_entries[i]][:6],
-                                             "only_impl": [e for e in impl_entries[i] if e not in me][:6],
+                                             "only_model": [e for e in me if e not in impl_entries_i][:6],
+                                             "only_impl": [e for e in impl_entries_i if e not in me][:6],
+                                             "counts": (len(me), len(impl_entries_i)),
                                              "files": p.files()})
             # oracle: the property, site by site
             for s in p.sites:
@@ -1093,14 +1282,14 @@ def run(chk):
                 why = None
                 if others:
                     why = "site marker also found in another module's text: %r" % (others,)
-                elif len(got) != 1 and not (s.ctx == "trait-impl-method" and len(got) == 1):
-                    why = "site found %d times in the emitted text (expected once): %r" % (len(got), got)
+                elif len(got) != s.mult:
+                    why = "site found %d times in the emitted text (the lowering visits it %d times): %r" % (len(got), s.mult, got)
                 else:
-                    e = got[0]
-                    if want[0] == "checked" and e != (s.marker, 1, want[1], want[2]):
-                        why = "expected %s::%s(..).expect(..), emitted %s" % (want[1], want[2], e)
-                    if want[0] == "raw" and e[1] != 0:
-                        why = "expected the raw constructor %s(..) (no hook / own method), emitted %s" % (want[1], e)
+                    for e in got:
+                        if want[0] == "checked" and e != (s.marker, 1, want[1], want[2]):
+                            why = "expected %s::%s(..).expect(..), emitted %s" % (want[1], want[2], e)
+                        if want[0] == "raw" and e[1] != 0:
+                            why = "expected the raw constructor %s(..) (no hook / own method), emitted %s" % (want[1], e)
                 if why is None:
                     continue
                 cls = known_class(s)
@@ -1136,19 +1325,28 @@ def run(chk):
                 mix_cases.append({"dir": os.path.join(SCRATCH, "m%d" % (k0 + len(mix_cases))), "op": "check", "entry": "main.incn",
                                   "files": {"main.incn": mix_program(under, MIX_SITES["MTypedLet"], hooked).replace("= B(", "= A(")}})
                 mix_meta.append(("control", under, hooked))
+        for (nm, target, _) in NAME_CASES:
+            mix_cases.append({"dir": os.path.join(SCRATCH, "m%d" % (k0 + len(mix_cases))), "op": "check", "entry": "main.incn",
+                              "files": {"main.incn": "type %s = newtype int\n\ndef main() -> None:\n    x: %s = %s(1)\n" % (nm, target, nm)}})
+            mix_meta.append(("name:" + nm, target, False))
         mix_impl = run_cases(dbg, mix_cases)
         mix_model = None
+        mix_model_names = {}
         if model_ok:
             names = [s for s in MIX_SITES]
             rt = {"int": "RInt", "str": "RStr", "float": "RFloat"}
-            terms = ["b2z (check_mix %s (RNamed \"B\") (RNamed \"A\"))" % s for s in names]
+            terms = [("b2z (%s)" % MIX_LIFTED[s]) if s in MIX_LIFTED else "b2z (check_mix %s (RNamed \"B\") (RNamed \"A\"))" % s for s in names]
             terms += ["b2z (compatible %s (RNamed \"A\"))" % rt[u] for u in ("int", "str", "float")]
             terms += ["b2z (compatible (RNamed \"A\") %s)" % rt[u] for u in ("int", "str", "float")]
+            terms += ["b2z (compatible (RNamed %s) %s)" % (cq(nm), rt_) for (nm, _, rt_) in NAME_CASES]
             vals = vlib.coq_eval(REQ, "Z", "fun x => x", terms, tag="c17mix")
+            for i, (nm, _, _) in enumerate(NAME_CASES):
+                mix_model_names[nm] = vals[len(names) + 6 + i]
             mix_model = dict(zip(names, vals[:len(names)]))
             for i, u in enumerate(("int", "str", "float")):
                 mix_model[("MUnderToNew", u)] = vals[len(names) + i]
                 mix_model[("MNewToUnder", u)] = vals[len(names) + 3 + i]
+        compat_hits = {}
         for (site, under, hooked), c, r in zip(mix_meta, mix_cases, mix_impl):
             accepted = 1 if r["stage"] == "ok" else 0
             chk.count_case(("mix", site, under, hooked), nontrivial=(accepted == 0))
@@ -1159,6 +1357,19 @@ def run(chk):
                 if not accepted:
                     fails.append({"mix": site, "underlying": under, "why": "control program (no mixing) rejected: %s" % r["errors"][:2], "files": c["files"]})
                 continue
+            if site.startswith("name:"):
+                nm = site[5:]
+                compat_hits["named-vs-%s:%s" % (under, "special-name" if accepted else "other-name")] = \
+                    compat_hits.get("named-vs-%s:%s" % (under, "special-name" if accepted else "other-name"), 0) + 1
+                if mix_model is not None and mix_model_names.get(nm) != accepted:
+                    corr_bad.append({"mix": site, "model_accepts": mix_model_names.get(nm), "impl_accepts": accepted, "files": c["files"]})
+                if accepted:
+                    if "newtype-builtin-name" in known_ids and nm.lower() in ("frozenstr", "frozenbytes"):
+                        known_seen.setdefault("newtype-builtin-name", "newtype %s over int accepted where %s is expected" % (nm, under))
+                        continue
+                    fails.append({"mix": site, "why": "a user newtype over int is accepted where %s is expected" % under, "files": c["files"]})
+                continue
+            compat_hits["%s:%s" % (site, "accepted" if accepted else "rejected")] = compat_hits.get("%s:%s" % (site, "accepted" if accepted else "rejected"), 0) + 1
             if mix_model is not None:
                 mm = mix_model.get(site, mix_model.get((site, under)))
                 if mm != accepted:
@@ -1240,7 +1451,25 @@ def run(chk):
     chk.coverage["rule"] = ("one case = one construction site (project, marker, context, callee form, underlying type, hook variant, same/other module), "
                             "or one --check mixing program, or (thorough) one run of a built binary; non-trivial = the property demands the hook call / a rejection there")
     chk.coverage["distribution"] = dist
+    ARM_NAMES = {1: "EIdent", 2: "ELit", 3: "EParen", 4: "EYield (operand dropped)", 5: "ENode (any other expression form)", 6: "EBlock",
+                 7: "call: callee not an identifier", 8: "call: identifier not detected as constructor", 9: "call: REWRITE to checked construction",
+                 10: "call: raw, inside own impl (exempt)", 11: "call: raw, no hook", 12: "call: raw, hooked but not one positional argument",
+                 13: "SNode", 14: "SFail (statement that fails to lower)", 20: "decl: newtype without methods", 21: "decl: newtype with methods",
+                 22: "decl: model/class", 23: "decl: model/class whose field default fails to lower", 24: "decl: function", 25: "decl: function fails to lower",
+                 26: "decl: const", 27: "decl: other", 28: "method list fails to lower", 30: "select: from_underlying among candidates",
+                 31: "select: single candidate", 32: "select: no candidate", 33: "select: several candidates, none chosen",
+                 34: "method rejected: receiver", 35: "method rejected: name prefix", 36: "method rejected: parameter list/type",
+                 37: "method rejected: return type", 38: "method accepted as candidate"}
+    UNREACHABLE = {23: "no expression-level lowering error exists outside statement blocks, and a field default is an expression"}
+    if model_ok:
+        chk.coverage["model_arm_hits"] = {"%d %s" % (a, ARM_NAMES[a]): arm_hits.get(a, 0) for a in sorted(ARM_NAMES)}
+        chk.coverage["model_arm_hits"].update({"compatible/" + k: v for k, v in sorted(compat_hits.items())})
+        zero = [a for a in ARM_NAMES if arm_hits.get(a, 0) == 0 and a not in UNREACHABLE]
+        chk.coverage["model_arms_unreachable_from_source"] = {"%d %s" % (a, ARM_NAMES[a]): why for a, why in UNREACHABLE.items()}
+        if zero:
+            raise vlib.Infra("generator bug: model arms never reached by the correspondence stream: %s" % [ARM_NAMES[a] for a in zero])
     chk.coverage["projects"] = len(projects)
+    chk.coverage["scale_projects_stopped_before_lowering"] = scale_skipped
     chk.coverage["sites"] = n_sites
     chk.coverage["contexts"] = sorted(set(c[0] for c in CTXS) | set(MODEL_KINDS) | {"return", "own-method", "nested-call-outer", "nested-call-inner"})
     chk.coverage["traces_validated_against_impl"] = (len(projects) + len(mix_cases)) if model_ok else 0
